@@ -50,6 +50,18 @@ class GzipShim(object):
 
 
 def build_results(kind):
+    if kind in ("four-chains", "many-entries", "big-data"):
+        data = traces.named_data(4, dims=2, grid=(101 if kind == "big-data" else 5), outlier_prob=0.2)
+        states = oracle.all_states(4, outliers=True)
+        nch, nent = {"four-chains": (4, 3), "many-entries": (2, 12), "big-data": (3, 2)}[kind]
+        chains = {}
+        k = 7
+        for c in range(nch):
+            chains[c] = []
+            for e in range(nent):
+                k = (k * 31 + 11) % len(states)
+                chains[c].append((oracle.build(states[k], data), -1.0 - 0.37 * ((k * 7) % 13)))
+        return traces.make_results(data, ["S0", "S1"], chains), None
     if kind == "clustered":
         data, crows = traces.clustered_setup(3, (1, 2, 1), grid=3, outlier_prob=0.2)
     else:
@@ -194,13 +206,13 @@ def main(tier, seed):
                 "write_map_results, write_consensus_results and write_topology_report (must raise, or give output byte-identical to the complete file's); ENOSPC "
                 "injected at EVERY write-call boundary of the writer; a case is non-trivial when the prefix is non-empty")
     chk.assumptions = ["gzip header time stamp fixed to 0 so the stream is reproducible", "crash = truncation at a byte; torn writes inside one write call are covered because every byte prefix is enumerated"]
-    kinds = ["one-chain", "two-chains", "clustered"]
+    kinds = ["one-chain", "two-chains", "clustered"] + (["four-chains", "many-entries", "big-data"] if tier == "thorough" else [])
     items = []
     info = {}
     for k in kinds:
         n, nb = stream_len(k)
         info[k] = {"bytes": n, "write_calls": nb}
-        step = max(1, n // 16 + 1)
+        step = max(1, n // 32 + 1)
         for lo in range(0, n, step):
             items.append((k, lo, lo + step))
     chk.note("streams", info)
